@@ -137,15 +137,19 @@ def child_syms(sh, side):
     return (al.C(0), VR, VR) if deg(cls) == 0 else (AR, BR, None)
 
 
-class Silent(Exception):
-    pass
+class NeedChoice(Exception):
+    """A guard compares a symbolic value with zero: both outcomes must be explored."""
+
+    def __init__(self, key, gen):
+        self.key, self.gen = key, gen
 
 
 class Exec:
     """Abstract executor of one extractor on one shape."""
 
-    def __init__(self, which, fi, sh):
+    def __init__(self, which, fi, sh, choices=None):
         self.which, self.fi, self.sh = which, fi, sh
+        self.choices = choices or {}
         self.subject = fi.node.args.args[0].arg
         self.env = {}
         self.contrib = al.C(0)  # for the accumulating extractor
@@ -191,6 +195,22 @@ class Exec:
                 return {ast.Eq: d == c, ast.NotEq: d != c}[type(t.ops[0])]
             if l == "idx" and r == "None":
                 return True if isinstance(t.ops[0], ast.IsNot) else False
+            # <symbolic value> == 0 / != 0 : value-dependent; explore both outcomes
+            if isinstance(t.comparators[0], ast.Constant) and t.comparators[0].value == 0 and isinstance(t.ops[0], (ast.Eq, ast.NotEq)):
+                try:
+                    v = self.val(t.left)
+                except AnalysisError:
+                    v = None
+                if v is not None:
+                    if v.is_zero():
+                        return isinstance(t.ops[0], ast.Eq)
+                    gen = v.single_generator()
+                    if gen is not None:
+                        key = src(t.left)
+                        if key not in self.choices:
+                            raise NeedChoice(key, gen)
+                        is_zero = self.choices[key]
+                        return is_zero if isinstance(t.ops[0], ast.Eq) else not is_zero
         raise AnalysisError(f"{self.fi.name}: cannot evaluate guard `{src(t)}` on shape {sh.label()}")
 
     # ---- values
@@ -317,15 +337,25 @@ class Exec:
         return "fall", None, None
 
 
-def run_extractor(prog, which, sh):
+def run_extractor(prog, which, sh, choices=None):
+    """-> list of (result term, executor, outcome, zeroed generators) -- one entry per explored value branch."""
     fi = prog.func(EXTRACTORS[which])
-    ex = Exec(which, fi, sh)
-    out = ex.run(fi.node.body)
+    ex = Exec(which, fi, sh, choices)
+    try:
+        out = ex.run(fi.node.body)
+    except NeedChoice as nc:
+        res = []
+        for z in (True, False):
+            ch = dict(choices or {})
+            ch[nc.key] = z
+            for r in run_extractor(prog, which, sh, ch):
+                res.append((r[0], r[1], r[2], r[3] + ([nc.gen] if z else [])))
+        return res
     if which == "all":
-        return ex.contrib, ex, out
+        return [(ex.contrib, ex, out, [])]
     if out[0] == "fall" or out[1] is None:
-        return al.C(0), ex, ("fall", None, None)
-    return out[1], ex, out
+        return [(al.C(0), ex, ("fall", None, None), [])]
+    return [(out[1], ex, out, [])]
 
 
 def check(prog, rep):
@@ -341,16 +371,33 @@ def check(prog, rep):
             if which == "all":
                 want = M * want
             try:
-                got, ex, out = run_extractor(prog, which, sh)
+                branches = run_extractor(prog, which, sh)
             except AnalysisError as e:
                 rep.undecided(f"{fi.name} on {sh.label()}: {e}")
                 continue
-            # vector kinds: member/element contributions are compared per element
-            if sh.kind in ("LinearCombination", "VectorSum"):
-                ok, got_s, want_s = _vector_case(which, sh, got, ex)
-            else:
-                ok = got.eq(want)
-                got_s, want_s = got.key(), want.key()
+            # the worst branch decides (a value-dependent guard makes every outcome reachable)
+            verdicts = []
+            for got, ex, out, zeroed in branches:
+                w = want
+                g = got
+                for gen in zeroed:
+                    g = g.zero_out(gen) if g is not None else None
+                    w = w.zero_out(gen) if w is not None else None
+                if g is None or w is None:
+                    continue
+                if sh.kind in ("LinearCombination", "VectorSum"):
+                    okb, gs, ws = _vector_case(which, sh, g, ex)
+                else:
+                    okb = g.eq(w)
+                    gs, ws = g.key(), w.key()
+                verdicts.append((okb, gs, ws, ex, out, zeroed))
+            if not verdicts:
+                rep.undecided(f"{fi.name} on {sh.label()}: no branch could be compared")
+                continue
+            bad = [v for v in verdicts if not v[0]]
+            ok, got_s, want_s, ex, out, zeroed = (bad[0] if bad else verdicts[0])
+            if zeroed and not ok:
+                got_s += f" (when {', '.join(zeroed)} = 0)"
             where = ex.trace[-1][0] if ex.trace else fi.node.lineno
             silent = out[0] == "fall" or (out[1] is not None and out[1].is_zero() and not want.is_zero())
             rep.ob("R05.1" if silent and not ok else "R05.2", fi.name, ok,
